@@ -446,6 +446,144 @@ def check(run):
                               key=key_of("C19-T7", dim, translate))
             for a_ in it.assumptions:
                 run.assume(a_)
+    # -------------------------------------------------------------------- T9 - T12 quaternions
+    run.rule("T9", "quaternion_matrix(q) == the rotation of q / |q| for every non-zero q (rational identity); orthonormal, det +1; q and -q give the same matrix")
+    run.rule("T10", "quaternion_from_matrix(isprecise=True): in each of the four largest-diagonal branches the result is a unit quaternion parallel to the one the matrix was built from")
+    run.rule("T11", "quaternion_multiply is the Hamilton product: N(q1 q0) R(q1 q0) == N(q1) R(q1) N(q0) R(q0) as polynomials (so it composes rotations) and |q1 q0|^2 == |q1|^2 |q0|^2")
+    run.rule("T12", "quaternion_about_axis(angle, axis) (unit axis) is [cos(a/2), sin(a/2) axis] and represents rotation_matrix(angle, axis)")
+    f_qm = ix.func("trimesh.transformations:quaternion_matrix")
+    f_qfm = ix.func("trimesh.transformations:quaternion_from_matrix")
+    f_qmul = ix.func("trimesh.transformations:quaternion_multiply")
+    f_qaa = ix.func("trimesh.transformations:quaternion_about_axis")
+    qs = list(sp.symbols("qw qx qy qz", real=True))
+
+    def hom(q):
+        """|q|^2 times the rotation matrix of q/|q| (polynomial entries)"""
+        w, x, y, z = q
+        return sp.Matrix([
+            [w * w + x * x - y * y - z * z, 2 * (x * y - z * w), 2 * (x * z + y * w)],
+            [2 * (x * y + z * w), w * w - x * x + y * y - z * z, 2 * (y * z - x * w)],
+            [2 * (x * z - y * w), 2 * (y * z + x * w), w * w - x * x - y * y + z * z],
+        ])
+
+    def qmat(qv):
+        it_ = Interp(ix, symbols=dict(consts), overrides={("quaternion_matrix", "identities"): np.array([False])})
+        it_.decider = lambda fr, t: False
+        try:
+            return arr(it_.call(f_qm, [np.array(qv, dtype=object)]))
+        except Unsupported as e:
+            raise AnalysisError(f"E3 cannot translate quaternion_matrix: {e}")
+
+    Mq = qmat(qs)
+    nq = sum(x * x for x in qs)
+    H = hom(qs)
+    ok = Mq.shape == (4, 4) and all(sp.cancel(sp.together(Mq[r, c] * nq - H[r, c])) == 0 for r in range(3) for c in range(3)) \
+        and all(sp.simplify(Mq[3, c] - (1 if c == 3 else 0)) == 0 and sp.simplify(Mq[c, 3] - (1 if c == 3 else 0)) == 0 for c in range(4))
+    run.obligation("T9", f_qm.where, "|q|^2 quaternion_matrix(q)[:3,:3] == homogeneous rotation form of q; last row / column homogeneous", ok)
+    if not ok:
+        run.violation("T9", f_qm.where, "quaternion_matrix(q) is not the rotation matrix of q / |q|", key=key_of("C19-T9", "form"))
+    # reference facts about the form itself (so T9 is not a comparison of one table with a copy of it)
+    HHt = sp.expand(H * H.T - nq**2 * sp.eye(3))
+    okf = all(e == 0 for e in HHt) and sp.expand(H.det() - nq**3) == 0 and sp.expand(hom([-x for x in qs]) - H) == sp.zeros(3, 3)
+    run.obligation("T9", f_qm.where, "the homogeneous form satisfies H H^T == |q|^4 I, det H == |q|^6, H(-q) == H(q)", okf)
+    if not okf:
+        raise AnalysisError("internal: the reference rotation form is wrong")
+    # T10: four branches
+    unit = [(qs[0] ** 2, 1 - qs[1] ** 2 - qs[2] ** 2 - qs[3] ** 2)]
+
+    class _NoTrig:
+        syms = {}
+
+    R4 = np.empty((4, 4), dtype=object)
+    R4[...] = sp.Integer(0)
+    R4[:3, :3] = np.array(H.tolist(), dtype=object)  # |q| = 1 below, so H is the rotation matrix
+    R4[3, 3] = sp.Integer(1)
+    branches = {
+        "trace": {"t > M[3, 3]": True},
+        "i=0": {"t > M[3, 3]": False, "M[1, 1] > M[0, 0]": False, "M[2, 2] > M[i, i]": False},
+        "i=1": {"t > M[3, 3]": False, "M[1, 1] > M[0, 0]": True, "M[2, 2] > M[i, i]": False},
+        "i=2": {"t > M[3, 3]": False, "M[1, 1] > M[0, 0]": False, "M[2, 2] > M[i, i]": True},
+    }
+    for bname, dec in branches.items():
+        dec = dict(dec)
+        dec["q[0] < 0.0"] = False
+        it_ = Interp(ix, symbols=dict(consts), decisions=dec)
+        try:
+            out = arr(it_.call(f_qfm, [R4], {"isprecise": True}))
+        except Unsupported as e:
+            run.instance("T10", f_qfm.where, f"branch {bname}: not translatable ({str(e)[:70]}) - NOT decided", True, nontrivial=False)
+            run.assume(f"quaternion_from_matrix branch {bname} is outside E3 ({str(e)[:80]})")
+            continue
+
+        def red(e_):
+            e_ = sp.together(e_)
+            num, den = sp.fraction(e_)
+            # radicals only appear as a common normalisation factor: clear them by squaring where needed
+            return reduce_mod(sp.expand(num), _NoTrig, extra=[(qs[0], 1 - qs[1] ** 2 - qs[2] ** 2 - qs[3] ** 2)]) if not num.has(sp.sqrt) and not any(
+                isinstance(a_, sp.Pow) and a_.exp.is_Rational and a_.exp.q == 2 for a_ in sp.preorder_traversal(num)) else None
+
+        par = []
+        for i_ in range(4):
+            for j_ in range(i_ + 1, 4):
+                d_ = sp.simplify(out[i_] * qs[j_] - out[j_] * qs[i_])
+                num = sp.fraction(sp.together(d_))[0]
+                num = sp.expand(num)
+                # strip a common radical factor
+                num = sp.expand(sp.simplify(num / sp.sqrt(sp.together(sp.simplify(num**2))).as_coeff_Mul()[0])) if False else num
+                par.append(num)
+        # parallel: every 2x2 minor vanishes modulo |q| = 1 (after removing the shared normalisation factor)
+        def vanish(e_):
+            e_ = sp.factor_terms(e_)
+            polys = [a_ for a_ in sp.Mul.make_args(e_) if not (isinstance(a_, sp.Pow) and a_.exp.is_Rational and not a_.exp.is_Integer) and not a_.is_Number]
+            prod = sp.Mul(*polys) if polys else sp.Integer(1 if e_ != 0 else 0)
+            return e_ == 0 or reduce_mod(sp.expand(prod), _NoTrig, extra=[(qs[0], 1 - qs[1] ** 2 - qs[2] ** 2 - qs[3] ** 2)]) == 0
+        ok_par = all(vanish(e_) for e_ in par)
+        n2 = sp.simplify(sum(x * x for x in out))
+        n2n, n2d = sp.fraction(sp.together(n2))
+        ok_unit = reduce_mod(sp.expand(n2n - n2d), _NoTrig, extra=[(qs[0], 1 - qs[1] ** 2 - qs[2] ** 2 - qs[3] ** 2)]) == 0
+        ok = ok_par and ok_unit
+        run.obligation("T10", f_qfm.where, f"branch {bname}: result parallel to q ({ok_par}) and of unit norm ({ok_unit}) on the matrix of a unit q", ok)
+        if not ok:
+            run.violation("T10", f_qfm.where, f"quaternion_from_matrix(isprecise=True), branch {bname}: the returned vector is not +-q for the rotation matrix of a unit "
+                                              f"quaternion q (parallel: {ok_par}, unit: {ok_unit}): matrices that fall in this branch convert to a different rotation",
+                          key=key_of("C19-T10", bname))
+    # T11 Hamilton product
+    q1 = list(sp.symbols("aw ax ay az", real=True))
+    q0 = list(sp.symbols("bw bx by bz", real=True))
+    it_ = Interp(ix, symbols=dict(consts))
+    try:
+        prod_ = list(arr(it_.call(f_qmul, [np.array(q1, dtype=object), np.array(q0, dtype=object)])))
+    except Unsupported as e:
+        raise AnalysisError(f"E3 cannot translate quaternion_multiply: {e}")
+    ok = sp.expand(hom(prod_) - hom(q1) * hom(q0)) == sp.zeros(3, 3) and sp.expand(sum(x * x for x in prod_) - sum(x * x for x in q1) * sum(x * x for x in q0)) == 0
+    run.obligation("T11", f_qmul.where, "H(q1 q0) == H(q1) H(q0) and |q1 q0|^2 == |q1|^2 |q0|^2 as polynomials", ok)
+    if not ok:
+        run.violation("T11", f_qmul.where, "quaternion_multiply(q1, q0) does not compose rotations: the rotation of the product is not the product of the rotations",
+                      key=key_of("C19-T11", "hamilton"))
+    # T12 quaternion about axis
+    trig = Trig()
+    ang = sp.Symbol("theta", real=True)
+    ax_ = [sp.Symbol(f"d{i}", real=True) for i in range(3)]
+    it_ = Interp(ix, symbols=dict(consts), trig=trig, decisions={"qlen > _EPS": True})
+    it_.stubs["trimesh.transformations:vector_norm"] = lambda itp, args, kw: (itp.assume("quaternion_about_axis: axis taken as unit (|d| = 1)"), sp.Integer(1))[1]
+    try:
+        qa = list(arr(it_.call(f_qaa, [ang, np.array(ax_, dtype=object)])))
+    except Unsupported as e:
+        raise AnalysisError(f"E3 cannot translate quaternion_about_axis: {e}")
+    sh, ch = trig.pair(ang, half=True)
+    ok = sp.expand(qa[0] - ch) == 0 and all(sp.expand(qa[i + 1] - sh * ax_[i]) == 0 for i in range(3))
+    # and it represents the Rodrigues rotation (double angle, |d| = 1)
+    s_, c_ = sp.symbols("s_full c_full")
+    Rq = hom(qa)
+    K = sp.Matrix([[0, -ax_[2], ax_[1]], [ax_[2], 0, -ax_[0]], [-ax_[1], ax_[0], 0]])
+    dv = sp.Matrix(ax_)
+    Rref = (ch**2 - sh**2) * sp.eye(3) + (1 - (ch**2 - sh**2)) * dv * dv.T + (2 * sh * ch) * K
+    dd = [(ax_[0], 1 - ax_[1] ** 2 - ax_[2] ** 2)]
+    okr = all(reduce_mod(reduce_mod(sp.expand(Rq[r, c] - Rref[r, c]), trig), _NoTrig, extra=dd) == 0 for r in range(3) for c in range(3))
+    run.obligation("T12", f_qaa.where, f"quaternion_about_axis == [cos(a/2), sin(a/2) d] ({ok}); its rotation == Rodrigues(angle, d) for unit d ({okr})", ok and okr)
+    if not (ok and okr):
+        run.violation("T12", f_qaa.where, "quaternion_about_axis does not represent the rotation by `angle` about `axis`", key=key_of("C19-T12", "axis"))
+
     # -------------------------------------------------------------------- T8 result arrays are float by construction
     run.rule("T8", "no matrix builder stores into an array whose dtype is the caller's (a copy / view of a parameter without a float conversion): integer input would truncate")
     import re as _re
